@@ -340,6 +340,15 @@ pub fn structural(prop: &'static str, cfg: &Config) -> PropRun {
         "C07" => sp.extend(crate::templates::t7_spaces(cfg.tier)),
         _ => {}
     }
+    if prop == "C01" && cfg.tier == Tier::Thorough {
+        // totality is the cheapest oracle and the one where depth pays most (F-J needed six
+        // atoms): one more level for the three macro / quoting alphabets
+        for (name, atoms) in [("S1.N6", spaces::S1), ("S2.N6", spaces::S2), ("S4.N6", spaces::S4)] {
+            let mut s6 = Space::new(name, atoms, 6);
+            s6.min_len = 6;
+            sp.push(s6);
+        }
+    }
     let sp = filter_spaces(cfg, sp);
     let mut report = ex.run(&sp, structural_visit(prop), cfg_of);
     if corpus && cfg.only_spaces.is_empty() {
